@@ -294,6 +294,9 @@ func (x *executor) checkFrame(m *machine, fr *frame, in ssa.Instruction, p *Ptr)
 }
 
 func (x *executor) checkFrameRef(m *machine, fr *frame, in ssa.Instruction, heap bool, sort string, ref *T) {
+	if ref == nil {
+		return
+	}
 	// fresh (negative numeral) references allocated on this path are always writable at function level
 	allowed := func(set []modTarget, mark int64) *T {
 		var alts []*T
@@ -758,10 +761,39 @@ func (x *executor) checkPost(m *machine, fr *frame, rs []Val) {
 		}
 	}
 	ev.vars = vars
+	// abstract-state frame: a changed token must be covered by a declared modifies of that interface type
+	for k, tok := range m.st.tokens {
+		if old, ok := x.entry.tokens[k]; ok && old == tok {
+			continue
+		}
+		if _, ok := x.entry.tokens[k]; !ok && tok.op == "tok0_"+sanitize(k) {
+			continue
+		}
+		declared := false
+		for _, mt := range x.modSet {
+			if mt.iface == k {
+				declared = true
+			}
+		}
+		if !declared {
+			x.oblige(m, "frame", "abstract-state:"+k, tFalse, nil, "abstract state of "+k+" is modified but not declared in modifies")
+		}
+	}
 	for i, cl := range x.allEnsures() {
 		ev.where = cl.line
 		g := ev.evalBool(cl.e)
 		x.oblige(m, "ensures", clauseName(cl, i), g, cl.tags, cl.text)
+	}
+	// `fresh` declarations: the returned slices must be this call's own allocations
+	for i, cl := range x.fc.freshExprs {
+		ev.where = cl.line
+		v := ev.eval(cl.e)
+		x.oblige(m, "ensures", fmt.Sprintf("fresh#%d", i+1), app("<", "Bool", x.c.slRef(v.t), refConst(0)), nil, "fresh "+cl.text)
+	}
+	if x.fc.fresh && len(rs) > 0 {
+		if _, ok := rs[0].typ.Underlying().(*types.Slice); ok {
+			x.oblige(m, "ensures", "fresh", app("<", "Bool", x.c.slRef(rs[0].t), refConst(0)), nil, "fresh result")
+		}
 	}
 }
 
